@@ -125,6 +125,11 @@ func (r *chunkedReader) Read(p []byte) (n int, err error) {
 			} else {
 				// the CRLF that closes the previous chunk's data
 				if err = r.expect("\r\n"); err != nil {
+					if err == io.EOF {
+						// The terminating chunk is closed by a CRLF like every
+						// other chunk; without it the stream was cut short.
+						err = io.ErrUnexpectedEOF
+					}
 					return n, err
 				}
 				if r.sawFinalChunk {
